@@ -211,7 +211,7 @@ def run(ctx):
     if not (drv and exe):
         return
     g = Gen(ctx.rng)
-    N = 6000 if not ctx.thorough else 60000
+    N = 30000 if not ctx.thorough else 300000
     spec_lines = []
     for _ in range(N):
         doc = g.root()
